@@ -2,8 +2,9 @@
    program P (source-level or flat) and whether an unrolled view has been produced.  Every
    observable is a function of that state; unrolling goes through the visitor model (Unroll.v). *)
 From Coq Require Import ZArith List Bool String.
-From Verif Require Import BGate PyVal Ast State Unroll Corr Spec Transforms.
+From Verif Require Import BGate PyVal Ast State Unroll Corr Spec Transforms Qasm2.
 Import ListNotations.
+Open Scope list_scope.
 Open Scope Z_scope.
 
 Record mspec := mkMS { sp_prog : list stmt; sp_unrolled : bool; sp_q2 : bool }.
@@ -14,7 +15,8 @@ Inductive mop :=
 | OPopulate (in_place : bool)
 | ORemoveIdle (in_place : bool)
 | OReverse (in_place : bool)
-| OCopy.
+| OCopy
+| OToQasm3.           (* Qasm2Module.to_qasm3(): a new version-3 module *)
 
 Inductive mout :=
 | OutUnit
@@ -52,13 +54,17 @@ Definition effect (m : mspec) (o : mop) : option (res mspec) :=
   | ORemoveIdle _ => Some (match flat m with Ok f => Ok (with_prog m (remove_idle f) true) | Err e => Err e end)
   | OReverse _ => Some (match flat m with Ok f => Ok (with_prog m (reverse_qubits f) true) | Err e => Err e end)
   | OCopy => Some (Ok m)
+  | OToQasm3 =>
+      (* the module's current program with the include rewritten, as a fresh version-3 module;
+         a version-3 module has no such method *)
+      Some (if sp_q2 m then Ok (mkMS (to_qasm3 (sp_prog m)) false false) else Err (EInternal KAttr))
   | _ => None
   end.
 
 Definition in_place_of (o : mop) : bool :=
   match o with
   | ORemove _ b | OPopulate b | ORemoveIdle b | OReverse b => b
-  | OCopy => false
+  | OCopy | OToQasm3 => false
   | _ => true
   end.
 
